@@ -10,7 +10,13 @@ EXTENDS Paths
 RatAdd(a, b) ==
   LET gg == GCD(a[2], b[2])
   IN Frac(a[1] * (b[2] \div gg) + b[1] * (a[2] \div gg), (a[2] \div gg) * b[2])
-RatMul(a, b) == Frac(a[1] * b[1], a[2] * b[2])
+(* cross-cancel before multiplying: TLC integers are 32-bit *)
+RatMul(a, b) ==
+  LET g1 == GCD(Abs(a[1]), b[2])
+      g2 == GCD(Abs(b[1]), a[2])
+      d1 == IF g1 = 0 THEN 1 ELSE g1
+      d2 == IF g2 = 0 THEN 1 ELSE g2
+  IN Frac((a[1] \div d1) * (b[1] \div d2), (a[2] \div d2) * (b[2] \div d1))
 
 SumRats(S, F(_)) ==
   LET RECURSIVE R(_)
